@@ -8,7 +8,7 @@ from genstore import gen_template
 from storedrv import KINDS, compare, execute, shrink
 
 
-def run_templates(chk, templates, toks, prefixes, kinds=KINDS, label="store"):
+def run_templates(chk, templates, toks, prefixes, kinds=KINDS, label="store", git_every_step=False):
     """Execute templates on the given back ends, compare with the model, collect verdicts.
 
     prefixes: monitor verdict prefixes that belong to the calling property (e.g. ("C01:",))."""
@@ -18,7 +18,7 @@ def run_templates(chk, templates, toks, prefixes, kinds=KINDS, label="store"):
             attrs = AttrTable(toks)
             root = scratch_dir()
             try:
-                lines, notes = execute(kind, tmpl, toks, attrs, root)
+                lines, notes = execute(kind, tmpl, toks, attrs, root, git_every_step=git_every_step)
             finally:
                 shutil.rmtree(root, ignore_errors=True)
             dis, viol = compare(lines)
@@ -36,7 +36,9 @@ def run_templates(chk, templates, toks, prefixes, kinds=KINDS, label="store"):
             if ti < 2 and kind == kinds[0]:
                 chk.sample({"backend": kind, "ops": [ln for ln in lines if ln.split(" ", 1)[0] in ("put", "del", "restart", "changes")][:12]})
             for note in notes:
-                chk.violation("assumption:" + note.split(" ")[0], note, {"backend": kind, "lines": lines})
+                if note.startswith(prefixes) or (not note.startswith("C") and "C08:" in prefixes):
+                    chk.violation(note.split(" ")[0] + " " + note.split(" ")[1] + "@" + kind if note.startswith("C") else "C08:ctag-not-tree-hash@" + kind,
+                                  note, {"backend": kind, "template": tmpl, "lines": lines})
             mine = [v for v in viol if v[2].startswith(prefixes)]
             if mine:
                 i, ln, verdict = mine[0]
@@ -64,3 +66,36 @@ def run_templates(chk, templates, toks, prefixes, kinds=KINDS, label="store"):
 
 def gen_many(chk, toks, n, length, profile):
     return [gen_template(chk.rng, toks, length, profile) for _ in range(n)]
+
+
+def replay_store(chk, rep, prefixes):
+    """Re-run the minimised template of a replay file and print what the monitor says."""
+    r = rep.get("replay", rep)
+    toks = Tokens()
+    tmpl = []
+    bodies = r.get("bodies", {})
+    remap = {}
+    for op in r["template"]:
+        op = list(op)
+        if op[0] == "put":
+            data = bodies[op[3]].encode("latin-1")
+            op[3] = toks.tok(data)
+        tmpl.append(tuple(op))
+    root = scratch_dir()
+    try:
+        lines, notes = execute(r["backend"], tmpl, toks, AttrTable(toks), root)
+    finally:
+        shutil.rmtree(root, ignore_errors=True)
+    dis, viol = compare(lines)
+    mine = [v for v in viol if v[2].startswith(prefixes)]
+    for ln in lines:
+        print("  " + ln)
+    for v in mine:
+        print("monitor:", v[2], "at", v[1])
+    for d in dis[:3]:
+        print("model disagrees:", d[1], "model says", d[2])
+    if mine:
+        print(f"VIOLATION property={chk.pid} replay=(replayed)")
+        return 1
+    print("replay: property held")
+    return 0
